@@ -13,6 +13,7 @@ package main
 import (
 	"bufio"
 	"bytes"
+	"crypto/tls"
 	"encoding/binary"
 	"encoding/json"
 	"fmt"
@@ -30,6 +31,7 @@ import (
 	"unicode/utf8"
 
 	"github.com/fatedier/frp/pkg/msg"
+	"github.com/hashicorp/yamux"
 
 	"verif/h"
 )
@@ -80,6 +82,7 @@ func main() {
 		"semantic equality: nil and empty maps/lists are equal, IP addresses compare by net.IP.Equal",
 		"golden vectors in /verif/golden/msg were produced from the pinned tree and cross-checked against the independent field table in this file",
 		"allocation bound measured with runtime.MemStats.TotalAlloc in a phase where no other harness goroutine runs",
+		"the live-server phase runs with the garbage collector off (soft limit 10 GiB): a dropped connection is not closed by a finalizer",
 	}
 	if len(os.Args) > 1 && os.Args[1] == "--gen-golden" {
 		genGolden()
@@ -755,11 +758,15 @@ func allocPhase() {
 // 3. live server
 
 func liveServer() {
+	// "disconnected" means closed by the code: with the collector running, a connection that frps merely drops is
+	// closed by its finalizer a few seconds later and looks like a disconnect
+	defer h.DisableGC(10)()
 	pa := h.Ports(prop)
 	type variant struct {
 		name string
 		data []byte
 		slow bool // server only notices after its 10 s read timeout
+		fin  bool // the peer ends its sending direction after these bytes (stream FIN / TCP half-close)
 	}
 	hdr := func(t byte, l int64, body string) []byte {
 		b := make([]byte, 9)
@@ -769,22 +776,27 @@ func liveServer() {
 	}
 	frame := func(m any) []byte { b, _ := encode(m); return b }
 	vars := []variant{
-		{"unknown-type", hdr('Z', 2, "{}"), false},
-		{"negative-length", hdr('o', -1, "{}"), false},
-		{"oversized-length", hdr('o', maxBody+1, strings.Repeat("x", 64)), false},
-		{"huge-length", hdr('o', 1<<62, "{}"), false},
-		{"malformed-json-login", hdr('o', 5, "{\"a\":"), false},
-		{"wrong-shape-login", hdr('o', 20, "{\"pool_count\":\"xyz\"}"), false},
-		{"unexpected-pong", frame(&msg.Pong{}), false},
-		{"unexpected-reqworkconn", frame(&msg.ReqWorkConn{}), false},
-		{"unexpected-startworkconn", frame(&msg.StartWorkConn{ProxyName: "x"}), false},
-		{"unexpected-newproxy", frame(&msg.NewProxy{ProxyName: "x", ProxyType: "tcp"}), false},
-		{"unexpected-udppacket", frame(&msg.UDPPacket{Content: "aGVsbG8="}), false},
-		{"unexpected-nathole", frame(&msg.NatHoleVisitor{ProxyName: "x"}), false},
-		{"unexpected-loginresp", frame(&msg.LoginResp{RunID: "abc"}), false},
-		{"truncated-frame-then-silence", hdr('o', 100, "{\"version\""), true},
-		{"one-byte-then-silence", []byte{'o'}, true},
-		{"random-garbage", []byte("\x00\xff\x10GARBAGE GARBAGE GARBAGE\r\n\r\n"), false},
+		{"unknown-type", hdr('Z', 2, "{}"), false, false},
+		{"negative-length", hdr('o', -1, "{}"), false, false},
+		{"oversized-length", hdr('o', maxBody+1, strings.Repeat("x", 64)), false, false},
+		{"huge-length", hdr('o', 1<<62, "{}"), false, false},
+		{"malformed-json-login", hdr('o', 5, "{\"a\":"), false, false},
+		{"wrong-shape-login", hdr('o', 20, "{\"pool_count\":\"xyz\"}"), false, false},
+		{"unexpected-pong", frame(&msg.Pong{}), false, false},
+		{"unexpected-reqworkconn", frame(&msg.ReqWorkConn{}), false, false},
+		{"unexpected-startworkconn", frame(&msg.StartWorkConn{ProxyName: "x"}), false, false},
+		{"unexpected-newproxy", frame(&msg.NewProxy{ProxyName: "x", ProxyType: "tcp"}), false, false},
+		{"unexpected-udppacket", frame(&msg.UDPPacket{Content: "aGVsbG8="}), false, false},
+		{"unexpected-nathole", frame(&msg.NatHoleVisitor{ProxyName: "x"}), false, false},
+		{"unexpected-loginresp", frame(&msg.LoginResp{RunID: "abc"}), false, false},
+		{"truncated-frame-then-silence", hdr('o', 100, "{\"version\""), true, false},
+		{"one-byte-then-silence", []byte{'o'}, true, false},
+		{"random-garbage", []byte("\x00\xff\x10GARBAGE GARBAGE GARBAGE\r\n\r\n"), false, false},
+		// the peer's bytes end exactly where the decoder starts a read (plain io.EOF, not a truncation error)
+		{"nothing-then-fin", nil, false, true},
+		{"type-byte-then-fin", []byte{'o'}, false, true},
+		{"header-then-fin", hdr('o', 100, ""), false, true},
+		{"half-body-then-fin", hdr('o', 100, "{\"version\""), false, true},
 	}
 	var outer sync.WaitGroup
 	for _, mux := range []bool{false, true} {
@@ -834,7 +846,16 @@ func liveServer() {
 							defer c.Close()
 						}
 						t0 := time.Now()
-						_, _ = c.Write(v.data)
+						if len(v.data) > 0 {
+							_, _ = c.Write(v.data)
+						}
+						if v.fin {
+							if inStream {
+								_ = c.Close() // a yamux stream's Close is a half-close: FIN, reading stays possible
+							} else if tc, ok := c.(*net.TCPConn); ok {
+								_ = tc.CloseWrite()
+							}
+						}
 						// the server must close the connection: read until EOF/reset. Upper bound = watchdog:
 						// server read timeout 10 s (+ yamux) → grace 45 s; exceeding it means "kept open".
 						_ = c.SetReadDeadline(time.Now().Add(45 * time.Second))
@@ -865,6 +886,9 @@ func liveServer() {
 			// the same first messages over the websocket carrier of the control port (GET /~!frp upgrade written by hand:
 			// with an Origin header, without one, and with an opaque one — frpc always sends one, other peers need not)
 			for _, v := range vars {
+				if v.fin {
+					continue
+				}
 				for oi, origin := range []string{"Origin: http://127.0.0.1\r\n", "", "Origin: null\r\n"} {
 					if !run.Thorough() && oi == 2 && len(v.name)%2 == 0 {
 						continue
@@ -950,6 +974,91 @@ func liveServer() {
 						p.Close()
 					}(pc, ts)
 				}
+			}
+			// first messages that END exactly where the decoder starts a read (plain end-of-stream, not a truncation), on the
+			// carriers that reach the first-message reader with fewer than 11 bytes: a yamux stream (tcpMux on) and a TLS
+			// connection (tcpMux off). The peer only ends its sending direction; frps has to close its side.
+			for _, v := range vars {
+				if !v.fin {
+					continue
+				}
+				wg.Add(1)
+				go func(v variant) {
+					defer wg.Done()
+					raw, err := net.DialTimeout("tcp", fmt.Sprintf("127.0.0.1:%d", port), 5*time.Second)
+					if err != nil {
+						run.Inconclusive("live: dial failed")
+						return
+					}
+					defer raw.Close()
+					if mux {
+						cfg := yamux.DefaultConfig()
+						cfg.LogOutput = io.Discard
+						sess, err := yamux.Client(raw, cfg)
+						if err != nil {
+							run.Inconclusive("live: yamux client failed")
+							return
+						}
+						defer sess.Close()
+						st, err := sess.OpenStream()
+						if err != nil {
+							run.Inconclusive("live: yamux stream failed")
+							return
+						}
+						if len(v.data) > 0 {
+							_, _ = st.Write(v.data)
+						}
+						_ = st.Close() // FIN for our direction; the stream disappears from the session once frps closed its side too
+						if !h.Eventually(45*time.Second, func() bool { return sess.NumStreams() == 0 }) {
+							run.Violation("malformed-first-message-connection-kept-open", "yamux stream, first message %s: the peer ended its direction, frps has not closed the stream after 45 s", v.name)
+						}
+						run.Count("live_first_message_ended_by_fin_yamux", 1)
+						run.Distinct("live-fin|yamux|" + v.name)
+						return
+					}
+					tc := tls.Client(raw, &tls.Config{InsecureSkipVerify: true})
+					_ = tc.SetDeadline(time.Now().Add(20 * time.Second))
+					if err := tc.Handshake(); err != nil {
+						run.Inconclusive("live: TLS handshake with the control port failed")
+						return
+					}
+					if len(v.data) > 0 {
+						_, _ = tc.Write(v.data)
+					}
+					_ = tc.CloseWrite()
+					_ = tc.SetReadDeadline(time.Now().Add(45 * time.Second))
+					buf := make([]byte, 1024)
+					for {
+						_, err := tc.Read(buf)
+						if err != nil {
+							if ne, ok := err.(net.Error); ok && ne.Timeout() {
+								run.Violation("malformed-first-message-connection-kept-open", "TLS connection, first message %s: the peer ended its direction, frps has not closed the connection after 45 s", v.name)
+							}
+							break
+						}
+					}
+					run.Count("live_first_message_ended_by_fin_tls", 1)
+					run.Distinct("live-fin|tls|" + v.name)
+				}(v)
+			}
+			// every registered message type, sent by a logged-in peer on its control connection: frps handles six of
+			// them and has no handler for the rest; whatever it does with the session, it stays up for the others
+			for _, wt := range wire {
+				wg.Add(1)
+				go func(wt wireType) {
+					defer wg.Done()
+					p, err := h.DialPeer(h.PeerOpts{ServerPort: port, TCPMux: mux, Token: "t17"})
+					if err != nil || !p.LoggedIn() {
+						run.Inconclusive("live: login for the after-login barrage failed")
+						return
+					}
+					defer p.Close()
+					m := goldenValue(wt).(msg.Message)
+					_ = p.Send(m)
+					_, perr := p.Ping(15 * time.Second)
+					run.Count("live_after_login_messages", 1)
+					run.Distinct(fmt.Sprintf("live-after-login|%v|%c|%v", mux, wt.b, perr == nil))
+				}(wt)
 			}
 			// honest traffic while the barrage runs
 			stop := make(chan struct{})
